@@ -2,6 +2,20 @@
 import numpy as np
 
 
+def exact(x, scale):
+    """A cell value as a scaled integer; exact for integer states of any magnitude (no detour through float64)."""
+    if scale == 1 and isinstance(x, (int, np.integer, bool, np.bool_)):
+        return int(x)
+    return int(round(float(x) * scale))
+
+
+def exact_rows(arr, scale):
+    a = np.asarray(arr)
+    if scale == 1 and a.dtype.kind in "iub":
+        return a.astype(object).tolist() if a.dtype.kind == "u" and a.dtype.itemsize == 8 else a.tolist()
+    return np.rint(a.astype(np.float64) * scale).astype(np.int64).tolist()
+
+
 def _cells(n, scale):
     """Neighbourhood -> (values as scaled ints in row-major order, None for masked cells)."""
     if isinstance(n, np.ma.MaskedArray):
@@ -9,10 +23,10 @@ def _cells(n, scale):
         mask = np.ma.getmaskarray(n)
         flat = []
         for x, m in zip(data.ravel().tolist(), mask.ravel().tolist()):
-            flat.append(None if m else int(round(float(x) * scale)))
+            flat.append(None if m else exact(x, scale))
         return flat, n.shape
     a = np.asarray(n)
-    return [int(round(float(x) * scale)) for x in a.ravel().tolist()], a.shape
+    return [exact(x, scale) for x in a.ravel().tolist()], a.shape
 
 
 def poly_hash(a, b, vals):
@@ -29,10 +43,11 @@ def poly_hash(a, b, vals):
 class Rule:
     """rule := hash:k:a:b:off | probe:k:a:b:off | counter:k:off | nks:R | total:k:R"""
 
-    def __init__(self, spec, scale=1, clobber=False):
+    def __init__(self, spec, scale=1, clobber=False, mixret=False):
         self.spec = spec
         self.scale = scale
         self.clobber = clobber      # overwrite the neighbourhood array after reading it (a rule may do that)
+        self.mixret = mixret        # return NumPy scalars of the automaton's dtype and plain Python ints alternately
         p = spec.split(":")
         self.name = p[0]
         self.args = [int(x) for x in p[1:]]
@@ -43,6 +58,9 @@ class Rule:
         vals, shape = _cells(n, self.scale)
         cc = tuple(int(x) for x in c) if isinstance(c, (tuple, list, np.void, np.ndarray)) else int(c)
         self.log.append((vals, shape, cc, int(t)))
+        if self.name == "shiftc":
+            # arithmetic on the cell index AS HANDED OVER: exact for Python ints, wraps for fixed-width NumPy integers
+            self.raw_shift = (1 << c) if not isinstance(c, (tuple, list, np.void, np.ndarray)) else (1 << c[0]) + (1 << c[1])
         out = self.value(vals, shape, cc, int(t))
         self.last_out = out
         if self.name == "half":
@@ -59,6 +77,10 @@ class Rule:
                 np.ma.getdata(n)[...] = 3        # the block handed to the rule is the rule's to scribble on
             except (ValueError, TypeError):
                 pass                              # read-only view: nothing to clobber
+        if self.mixret and self.scale == 1 and len(self.log) % 2:
+            dt = np.ma.getdata(n).dtype
+            if dt.kind in "iu":
+                return dt.type(out)
         return out / self.scale if self.scale != 1 else out
 
     def value(self, vals, shape, cc, t):
@@ -92,6 +114,13 @@ class Rule:
         if nm == "half":
             k, aa, b, off, s2 = a
             return poly_hash(aa, b, vals) % k + off      # the extra 1/2 is added in __call__ (unscaled units)
+        if nm == "shiftc":
+            k, off = a
+            if len(shape) == 1:
+                centre = vals[len(vals) // 2]
+            else:
+                centre = vals[(shape[0] // 2) * shape[1] + shape[1] // 2]
+            return (int(self.raw_shift) % 1000003 + centre) % k + off
         if nm == "pulse":
             k, t0, off = a
             if len(shape) == 1:
@@ -110,7 +139,7 @@ class Rule:
         return out
 
     def fresh(self):
-        return Rule(self.spec, self.scale, clobber=self.clobber)
+        return Rule(self.spec, self.scale, clobber=self.clobber, mixret=self.mixret)
 
 
 class Pred:
@@ -130,7 +159,7 @@ class Pred:
 
     def __call__(self, ca, t):
         arr = np.asarray(ca)
-        rows = np.rint(arr.astype(float) * self.scale).astype(np.int64).tolist()
+        rows = exact_rows(arr, self.scale)
         self.calls.append((rows, int(t)))
         nm = self.name
         if nm == "steps":
@@ -142,7 +171,7 @@ class Pred:
                 return self._ufp(ca, t)
             return not (len(arr) > 1 and (arr[-2] == arr[-1]).all())
         if nm == "sumlt":
-            return int(np.rint(arr[-1].astype(float).sum() * self.scale)) < self.args[0]
+            return sum(exact(x, self.scale) for x in np.asarray(arr[-1]).ravel().tolist()) < self.args[0]
         if nm == "lenle":
             return len(arr) <= self.args[0]
         raise ValueError(self.spec)
